@@ -3,6 +3,7 @@ import Poulpy.Model.HalSpec
 import Poulpy.Model.Core.Basic
 import Poulpy.Model.Ring
 import Poulpy.Model.VecNorm
+import Poulpy.Model.ScratchOps
 
 /-!
 # Noise-free GLWE / GGSW operations (poulpy-core `api/operations.rs`, `operations/{glwe,ggsw}.rs`)
@@ -23,9 +24,12 @@ Which Rust body is in effect for `Module<BE>` (checked in `delegates/operations.
 
 A Rust function `op(&self, res, a, …)` becomes `op N res a … : Outcome GLWE` returning the new
 value of `res` (`N` = `module.n()`).  Every `assert!` / index check reachable from the arguments is a
-`panic` outcome.  Not modelled: the `scratch.available() >= tmp_bytes` assertions (the harness
-always supplies enough scratch; the *content* of scratch is an input of the interpreter — the
-harness fills the arena with a pattern before every operation — and no operation depends on it).  `GLWE` has no `k` field in the Rust (`size = data.size()`); the `k` field of
+`panic` outcome.  The `scratch.available() >= …_tmp_bytes` assertions are modelled by the `…S` wrappers
+at the end of each section (`checkS`, outcome `panic "scratch"`; thresholds = the C12 formulas
+`Scratch.tbGlweRotate / tbGlweShift / tbGlweNormalize`; `sc` = bytes available in the arena), which
+are what the program interpreter `step` executes; the un-suffixed functions are the operations given
+enough scratch.  The *content* of scratch is an input of the interpreter — the harness fills the
+arena with a pattern before every operation — and no operation depends on it.  `GLWE` has no `k` field in the Rust (`size = data.size()`); the `k` field of
 `Core.GLWE` is carried along unchanged.
 -/
 
@@ -270,6 +274,51 @@ def ggswRotateAssign (N : Nat) (k : Int) (res : GGSW) : Outcome GGSW :=
   bind (forEntries (res.dnum * (res.rank + 1)) 0 (fun _ e => glweRotateAssign N k e) res.cts)
     fun cts => .ok { res with cts := cts }
 
+/-! ## the scratch-size assertions
+
+`assert!(scratch.available() >= self.…_tmp_bytes())` of every operation that takes a scratch arena,
+at its position among the other assertions of the Rust body: first for the shifts, the in-place
+rotation / normalisation and `ggsw_rotate_assign`; after the shape assertions for `glwe_normalize`;
+`glwe_mul_xp_minus_one_assign` has none — its kernel takes one limb from the arena and panics there. -/
+
+/-- `assert!(scratch.available() >= need)` (or the failing `take_slice` of `need` bytes) -/
+def checkS (need avail : Nat) (k : Outcome α) : Outcome α := if need ≤ avail then k else .panic "scratch"
+
+/-- bytes available in `ScratchOwned::alloc(sb)`: `alloc_aligned` rounds the size up to the next
+multiple of `DEFAULTALIGN = 64`, and the arena starts aligned -/
+def scratchCap (sb : Nat) : Nat := (sb + 63) / 64 * 64
+
+def glweRotateAssignS (N sc : Nat) (k : Int) (res : GLWE) : Outcome GLWE :=
+  checkS (Scratch.tbGlweRotate N) sc <| glweRotateAssign N k res
+
+def glweMulXpMinusOneAssignS (N sc : Nat) (k : Int) (res : GLWE) : Outcome GLWE :=
+  check (res.n == N) <| checkS (Scratch.oneLimbTmp N) sc <| glweMulXpMinusOneAssign N k res
+
+def glweRshS (N sc : Nat) (scr : Int) (k : Nat) (res : GLWE) : Outcome GLWE :=
+  checkS (Scratch.tbGlweShift N) sc <| glweRsh N scr k res
+
+def glweLshAssignS (N sc : Nat) (res : GLWE) (k : Nat) : Outcome GLWE :=
+  checkS (Scratch.tbGlweShift N) sc <| glweLshAssign N res k
+
+def glweLshS (N sc : Nat) (res a : GLWE) (k : Nat) : Outcome GLWE :=
+  checkS (Scratch.tbGlweShift N) sc <| glweLsh N res a k
+
+def glweLshAddS (N sc : Nat) (res a : GLWE) (k : Nat) : Outcome GLWE :=
+  checkS (Scratch.tbGlweShift N) sc <| glweLshAdd N res a k
+
+def glweLshSubS (N sc : Nat) (res a : GLWE) (k : Nat) : Outcome GLWE :=
+  checkS (Scratch.tbGlweShift N) sc <| glweLshSub N res a k
+
+def glweNormalizeS (N sc : Nat) (res a : GLWE) : Outcome GLWE :=
+  check (res.n == N) <| check (a.n == N) <| check (res.rank == a.rank) <|
+  checkS (Scratch.tbGlweNormalize N) sc <| glweNormalize N res a
+
+def glweNormalizeAssignS (N sc : Nat) (res : GLWE) : Outcome GLWE :=
+  checkS (Scratch.tbGlweNormalize N) sc <| glweNormalizeAssign N res
+
+def ggswRotateAssignS (N sc : Nat) (k : Int) (res : GGSW) : Outcome GGSW :=
+  checkS (Scratch.tbGlweRotate N) sc <| ggswRotateAssign N k res
+
 /-! ## straight-line programs over a pool -/
 
 inductive Obj where
@@ -282,6 +331,8 @@ structure Pool where
   N : Nat
   scr : Int
   objs : List Obj
+  /-- size in bytes requested for the scratch arena (`ScratchOwned::alloc(sb)`) -/
+  sb : Nat := 65536
 deriving Repr
 
 inductive Op where
@@ -348,22 +399,22 @@ def step (p : Pool) : Op → Outcome Pool
   | .negateAssign r => un p r (glweNegateAssign p.N)
   | .copy r a => bin p r a (glweCopy p.N)
   | .rotate k r a => bin p r a (glweRotate p.N k)
-  | .rotateAssign k r => un p r (glweRotateAssign p.N k)
+  | .rotateAssign k r => un p r (glweRotateAssignS p.N (scratchCap p.sb) k)
   | .mulXpMinusOne k r a => bin p r a (glweMulXpMinusOne p.N k)
-  | .mulXpMinusOneAssign k r => un p r (glweMulXpMinusOneAssign p.N k)
-  | .rsh k r => un p r (glweRsh p.N p.scr k)
-  | .lshAssign r k => un p r (fun res => glweLshAssign p.N res k)
-  | .lsh r a k => bin p r a (fun res ca => glweLsh p.N res ca k)
-  | .lshAdd r a k => bin p r a (fun res ca => glweLshAdd p.N res ca k)
-  | .lshSub r a k => bin p r a (fun res ca => glweLshSub p.N res ca k)
-  | .normalize r a => bin p r a (glweNormalize p.N)
-  | .normalizeAssign r => un p r (glweNormalizeAssign p.N)
+  | .mulXpMinusOneAssign k r => un p r (glweMulXpMinusOneAssignS p.N (scratchCap p.sb) k)
+  | .rsh k r => un p r (glweRshS p.N (scratchCap p.sb) p.scr k)
+  | .lshAssign r k => un p r (fun res => glweLshAssignS p.N (scratchCap p.sb) res k)
+  | .lsh r a k => bin p r a (fun res ca => glweLshS p.N (scratchCap p.sb) res ca k)
+  | .lshAdd r a k => bin p r a (fun res ca => glweLshAddS p.N (scratchCap p.sb) res ca k)
+  | .lshSub r a k => bin p r a (fun res ca => glweLshSubS p.N (scratchCap p.sb) res ca k)
+  | .normalize r a => bin p r a (glweNormalizeS p.N (scratchCap p.sb))
+  | .normalizeAssign r => un p r (glweNormalizeAssignS p.N (scratchCap p.sb))
   | .ggswRotate k r a =>
     noAlias (r == a) <|
     bind (getGg p r) fun res => bind (getGg p a) fun ga =>
       bind (ggswRotate p.N k res ga) fun x => .ok (putObj p r (.gg x))
   | .ggswRotateAssign k r =>
-    bind (getGg p r) fun res => bind (ggswRotateAssign p.N k res) fun x => .ok (putObj p r (.gg x))
+    bind (getGg p r) fun res => bind (ggswRotateAssignS p.N (scratchCap p.sb) k res) fun x => .ok (putObj p r (.gg x))
 
 /-- run a program; stops at the first failing step -/
 def run : Pool → List Op → Outcome Pool
